@@ -84,6 +84,16 @@ int32_t matrixSslValidatePeerCerts(ssl_t *ssl,
     psCheckSetPathLenFailure(ssl, ssl->sec.cert);
     rc = psCheckValidationResult(ssl,
             ssl->sec.cert);
+    if (rc == PS_SUCCESS &&
+        (ssl->keys == NULL || ssl->keys->CAcerts == NULL))
+    {
+        /* Same rule as for TLS 1.2 and below (parseCertificate): without
+           any local trust anchor a chain that is consistent in itself has
+           not been authenticated by anybody. */
+        ssl->err = SSL_ALERT_UNKNOWN_CA;
+        psTraceInfo("WARNING: Valid cert chain but no local authentication\n");
+        rc = MATRIXSSL_ERROR;
+    }
     if (rc == PS_SUCCESS && validateRc < 0)
     {
         /* Validation failed without leaving the reason in any authStatus
